@@ -30,7 +30,7 @@ MODES = ["inplace"]
 def generate(rng, tier):
     n = 500 if tier == "quick" else 6000
     for _ in range(n):
-        yield pc.gen_case(rng, tier, MODES, p_save=0.2, sub_edits=0.15)
+        yield pc.gen_case(rng, tier, MODES, p_save=0.2, sub_edits=0.15, empty_features=True)
 
 
 def run_impl(case):
